@@ -74,12 +74,11 @@ NonBlank(s) == {k \in 1 .. Len(s) : ~IsSpace(s[k])}
 Chomp(s) == [result |-> IF NonBlank(s) = {} THEN <<>> ELSE SubSeq(s, Min(NonBlank(s)), Max(NonBlank(s))),
              touched |-> IF s = <<>> THEN {} ELSE 0 .. Len(s)]
 \* C: every run of white space becomes one blank; a blank at the very end is dropped (one at the start stays)
-RECURSIVE CondenseFrom(_, _, _)
-CondenseFrom(s, i, gotspc) ==
-    IF i > Len(s) THEN <<>>
-    ELSE IF IsSpace(s[i]) THEN (IF gotspc THEN <<>> ELSE <<32>>) \o CondenseFrom(s, i + 1, TRUE)
-    ELSE <<s[i]>> \o CondenseFrom(s, i + 1, FALSE)
-Condense(s) == LET r == CondenseFrom(s, 1, FALSE) IN
+\* (written without recursion so that TLC can evaluate it on texts of a thousand bytes: the kept positions are the
+\* non-blank ones and the first blank of every run)
+CondenseKept(s) == SelectSeq([k \in 1 .. Len(s) |-> k], LAMBDA k : ~IsSpace(s[k]) \/ k = 1 \/ ~IsSpace(s[k - 1]))
+CondenseRuns(s) == LET idx == CondenseKept(s) IN [j \in 1 .. Len(idx) |-> IF IsSpace(s[idx[j]]) THEN 32 ELSE s[idx[j]]]
+Condense(s) == LET r == CondenseRuns(s) IN
                [result |-> IF r # <<>> /\ r[Len(r)] = 32 THEN SubSeq(r, 1, Len(r) - 1) ELSE r,
                 touched |-> 0 .. Len(s)]
 Downcase(s) == [result |-> [k \in 1 .. Len(s) |-> Lower(s[k])], touched |-> 0 .. (Len(s) - 1)]
@@ -124,9 +123,8 @@ Spec == Init /\ [][Next]_vars
 (* laws of the reference (checked on every argument tuple) *)
 Untouched(r, before) == \A k \in 1 .. Len(before) : (k - 1) \notin r.touched => r.result[k] = before[k]
 IsPrefixOf(p, t) == Len(p) <= Len(t) /\ SubSeq(t, 1, Len(p)) = p
-CopyLaws ==
-    (fam = "copy" /\ ~done) =>
-        LET size == x.size  src == x.src  b == Buffer(size, x.pre)
+CopyLawsOf(size, src, pre) ==
+        LET b == Buffer(size, pre)
             c == SafeStrncpy(size, src, b)  a == SafeStrncat(size, src, b)  old == CStr(b) IN
         \* NulTerminated, within size bytes
         /\ Len(c.result) = size /\ Terminated(c.result)
@@ -144,19 +142,16 @@ CopyLaws ==
               /\ a.ret = (CStr(a.result) = old \o src)
               /\ a.touched \subseteq 0 .. (size - 1) /\ Untouched(a, b)
         /\ ~a.claimed => a.result = b /\ a.touched = {}
-SubstrLaws ==
-    (fam = "substr" /\ ~done) =>
-        LET s == x.s  r == Substr(s, x.idx, x.cnt)  len == Len(s)
-            start == IF x.idx < 0 THEN len + x.idx ELSE x.idx IN
+SubstrLawsOf(s, idx, cnt) ==
+        LET r == Substr(s, idx, cnt)  len == Len(s)
+            start == IF idx < 0 THEN len + idx ELSE idx IN
         \* refused exactly when the start is outside the string or the count is negative beyond the rest
-        /\ r.ok = (start \in 0 .. (len - 1) /\ (x.cnt <= 0 => len - start + x.cnt >= 0))
+        /\ r.ok = (start \in 0 .. (len - 1) /\ (cnt <= 0 => len - start + cnt >= 0))
         \* exactly the requested in-range slice
         /\ r.ok => /\ r.result = SubSeq(s, start + 1, start + Len(r.result))
-                   /\ (x.cnt > 0 => Len(r.result) = MinOf(x.cnt, len - start))
-                   /\ (x.cnt <= 0 => Len(r.result) = len - start + x.cnt)
-InPlaceLaws ==
-    (fam = "inplace" /\ ~done) =>
-        LET s == x.s IN
+                   /\ (cnt > 0 => Len(r.result) = MinOf(cnt, len - start))
+                   /\ (cnt <= 0 => Len(r.result) = len - start + cnt)
+InPlaceLawsOf(s) ==
         \* NeverLonger, TouchedWithinBounds
         /\ \A r \in {Chomp(s), Condense(s), Downcase(s), Upcase(s), Strrev(s)} \cup {SafeStr(s, n) : n \in 0 .. Len(s)} :
               Len(r.result) <= Len(s) /\ r.touched \subseteq 0 .. Len(s)
@@ -172,4 +167,7 @@ InPlaceLaws ==
         /\ Strrev(Strrev(s).result).result = s
         /\ Downcase(Upcase(s).result).result = Downcase(s).result
         /\ \A n \in 0 .. Len(s) : LET r == SafeStr(s, n).result IN Len(r) = Len(s) /\ \A k \in 1 .. n : ~IsCntrl(r[k])
+CopyLaws    == (fam = "copy" /\ ~done) => CopyLawsOf(x.size, x.src, x.pre)
+SubstrLaws  == (fam = "substr" /\ ~done) => SubstrLawsOf(x.s, x.idx, x.cnt)
+InPlaceLaws == (fam = "inplace" /\ ~done) => InPlaceLawsOf(x.s)
 ================================================================================
